@@ -20,7 +20,7 @@ RULE = ("case = generated layout (depth <= 4, 10-25 entries incl. look-alikes an
         "(./src, src, a/b, absolute) ; runs: check + edit from the project dir, then edit again from 1-2 other working "
         "directories (relative and absolute -c). Non-trivial = layout with at least one out-of-scope decoy carrying a missing "
         "reference and one in-scope file; distinct = case index.")
-PROBES = ["config_in_subdir", "symlink_to_file", "symlink_to_dir", "symlink_outside", "dir_named_rs", "lookalike_ext", "abs_source_dir", "cwd_outside",
+PROBES = ["unreadable_subdir", "config_in_subdir", "symlink_to_file", "symlink_to_dir", "symlink_outside", "dir_named_rs", "lookalike_ext", "abs_source_dir", "cwd_outside",
           "cwd_root_abs", "empty_scope", "multi_ext", "hidden_rs", "nested_depth4"]
 ASSUMPTIONS = ["source_dir itself is a real directory (not a symlink)"]
 DEADLINE = {"quick": 200, "thorough": 3000}
@@ -249,12 +249,49 @@ def evaluate(wm, seed, base, ctx, cwds=(("outside", "rel"), ("/", "abs"))):
     return viols, scope
 
 
+def evaluate_unreadable_dir(wm, seed, base, nth, ctx):
+    """One sub-directory of the source tree cannot be opened (EACCES on its opendir): the files below it are out of reach,
+    every other in-scope file must still be read and edited."""
+    scope = model_scope(wm, base)
+    plan = {"seed": seed, "perm": True, "faults": [{"from": 1, "kinds": ["OPENDIR"], "pre": base, "nth": nth, "act": "fail",
+                                                    "errno": "EACCES"}]}
+    cfgname = wm.get("cfg_name", "Breadlog.yaml")
+    run = scen.exec_run(wm, False, plan, {"cwd": "proj", "config_arg": "rel", "threads": 2, "config_name": cfgname}, ctx)
+    res = run["res"]
+    failed = [os.path.normpath(o.path) for o in res.ops if o.kind == "OPENDIR" and o.ret < 0 and o.fired != "-"]
+    if not failed or res.mode != "exited":
+        return []
+    ctx.probes["unreadable_subdir"] += 1
+    d = failed[0]
+    if d == base:
+        return []       # the source directory itself: nothing can be expected
+    expected = {p for p in scope if not p.startswith(d + "/")}
+    scenario = {"wm": world.wm_to_json(wm), "seed": seed, "base": base, "opendir_nth": nth}
+    dg = hashlib.sha256((res.trace_digest() + core.digest_world(run["after"])).encode()).hexdigest()
+    viols = []
+    rd = opened_for_read(res)
+    if rd != expected:
+        viols.append({"signature": "read-set-differs|unreadable-subdir",
+                      "what": "sub-directory %s could not be opened; skipped although reachable: %s; opened although out of scope: %s"
+                              % (d, sorted(expected - rd)[:4], sorted(rd - expected)[:4]), "scenario": scenario, "digest": dg})
+    for p in sorted(expected):
+        b, a = run["before"][p], run["after"].get(p)
+        ins = core.explain(b["data"], a["data"]) if a is not None and a["t"] == "f" else None
+        if not ins:
+            viols.append({"signature": "in-scope-file-not-edited|unreadable-subdir",
+                          "what": "%s is reachable (only %s is unreadable) but was not edited" % (p, d), "scenario": scenario, "digest": dg})
+            break
+    return viols
+
+
 def run_case(rng, idx, tier, ctx):
     wm, seed, tags, base = gen(rng)
     cw = [("outside", "rel"), ("/", "abs"), ("root", "rel"), ("outside", "abs")]
     rng.shuffle(cw)
     cwds = tuple(cw[:1 if tier == "quick" else 2])
     viols, scope = evaluate(wm, seed, base, ctx, cwds)
+    if not viols and scope:
+        viols += evaluate_unreadable_dir(wm, seed, base, rng.randrange(2, 7), ctx)
     for t in tags:
         ctx.probes[t] += 1
     for c, _a in cwds:
@@ -275,6 +312,8 @@ def run_case(rng, idx, tier, ctx):
 
 def replay(scenario, ctx):
     wm = world.wm_from_json(scenario["wm"])
+    if "opendir_nth" in scenario:
+        return evaluate_unreadable_dir(wm, scenario["seed"], scenario["base"], scenario["opendir_nth"], ctx)
     cwds = tuple(tuple(c) for c in scenario.get("cwds", [["outside", "rel"], ["/", "abs"]]))
     vs, _ = evaluate(wm, scenario["seed"], scenario["base"], ctx, cwds)
     for v in vs:
